@@ -99,7 +99,7 @@ class Runner:
         tp = h.tier_params(self.tier)
         budget = tp["reach_timeout"] if reach else tp["timeout"]
         r = _run_json(self.worker_cmd(h, shard, nshards, reach, exclude), "@@RESULT",
-                      budget * 4.0 + 180)
+                      budget * 12.0 + 600)
         r.update(harness=h.name, shard=shard, nshards=nshards, reach=reach,
                  exclude=sorted(exclude))
         return r
